@@ -627,6 +627,49 @@ func cmdAsync(args []string) int {
 			f.Close()
 		}
 	}
+	// nested async calls: every outer callback runs an inner ForEachAsync / MapAsync while many others are in flight
+	if st.nviol() == 0 {
+		for _, outerN := range []int{3, 130, 400} {
+			outerN := outerN
+			doneCh := make(chan error, 1)
+			go func() {
+				outer := at.NewList()
+				for i := 0; i < outerN; i++ {
+					outer.Add(i)
+				}
+				inner := at.NewList(1, 2, 3)
+				innerO := at.NewObject("a", 1, "b", 2)
+				var total int64
+				outer.ForEachAsync(func(i int, _ any) {
+					time.Sleep(5 * time.Millisecond)
+					if i%2 == 0 {
+						inner.ForEachAsync(func(int, any) { atomic.AddInt64(&total, 1) })
+					} else {
+						m := innerO.MapAsync(func(k string, v any) any { return v })
+						atomic.AddInt64(&total, int64(m.Count()))
+					}
+				})
+				want := int64((outerN+1)/2*3 + outerN/2*2)
+				if total != want {
+					doneCh <- fmt.Errorf("nested async calls: %d inner callbacks ran, want %d", total, want)
+					return
+				}
+				doneCh <- nil
+			}()
+			select {
+			case err := <-doneCh:
+				atomic.AddInt64(&st.evals, 1)
+				if err != nil {
+					fail("nested", fmt.Sprintf("outer n=%d", outerN), err)
+				}
+			case <-time.After(30 * time.Second):
+				fail("nested", fmt.Sprintf("outer n=%d", outerN), fmt.Errorf("ForEachAsync over %d elements whose callbacks make nested ForEachAsync/MapAsync calls did not return within 30 s (callbacks never all returned)", outerN))
+			}
+			if st.nviol() > 0 {
+				break
+			}
+		}
+	}
 	// concurrent read-only calls on a shared, untouched container
 	var combos int64
 	if st.nviol() == 0 {
